@@ -339,7 +339,7 @@ def sender_run(ctx):
     return viol
 
 
-def reply_framing_run(ctx):
+def reply_framing_run(ctx, cuts=True):
     """C08, frontend as receiver: the correct reply / acknowledgement of every awaiting call, delivered in separate segments
     (must give the same result) or cut off by end-of-stream at every offset (must give an error, not a success or a hang)."""
     cases = ctx.tlc_mc("MC_Client", "MC_Client_" + ctx.tier)
@@ -355,8 +355,9 @@ def reply_framing_run(ctx):
     offs = list(range(0, 40 if ctx.tier == "quick" else 120)) + [-1, -2]
     for k, c in sorted(best.items()):
         pre, last = c["steps"][:-1], c["steps"][-1]
-        for at in offs:
-            sess.append(dict(steps=pre + [dict(last, peer="cut", at=at)]))
+        if cuts:
+            for at in offs:
+                sess.append(dict(steps=pre + [dict(last, peer="cut", at=at)]))
         splits = [[a] for a in offs if a != 0] + [[1, 12], [12, 13], [11, 13], [12, -2], [4, 8], [13, -1]]
         # segmented replies leave the session usable: several per session
         for i in range(0, len(splits), 8):
@@ -364,15 +365,15 @@ def reply_framing_run(ctx):
         # byte by byte
         sess.append(dict(steps=pre + [dict(last, peer="seg", segs=list(range(1, 64)))]))
     sess = replay_or(ctx, "client", sess)
-    tr = ctx.harness("client", sess, shards=12)
-    viol = ctx.tlc_tv("TV_Client", tr, "client")
+    tr = ctx.harness("client", sess, tag="_seg", shards=12)
+    viol = ctx.tlc_tv("TV_Client", tr, "client_seg")
     ctx.count_distinct(tr, lambda e: (e.get("op"), e.get("peer"), e.get("at"), json.dumps(e.get("segs")), e.get("res")),
                        lambda e: e.get("ev") == "call" and e.get("peer") in ("cut", "seg"))
     return viol
 
 
 def run_C08(ctx):
-    if ctx.replay is not None and ctx.replay["engine"] == "client":
+    if ctx.replay is not None and ctx.replay["engine"] in ("client", "client_seg"):
         viol = reply_framing_run(ctx)
         return ctx.finish("fault_enumeration", "replay of reply segmentation / truncation towards the frontend", ASSUME_COMMON, viol)
     if ctx.replay is not None and ctx.replay["engine"] == "sender":
@@ -384,6 +385,11 @@ def run_C08(ctx):
     for st in stim:
         step = dict(c=st["c"], nr=False, h="ok", v=[], var="fixed", seg=st["seg"], cut=st["cut"])
         cases.append(dict(dev=dict(vf=[30], pf=[]), steps=SRV_PREFIX + [step]))
+        if st["cut"] < 0 and st["seg"] and st["seg"][0] < 12 and len(st["seg"]) <= 2:
+            # a split inside the header, and the receive attempt that follows the first piece meets a temporary condition
+            # (EAGAIN: non-blocking socket / receive timeout; EINTR) before the next piece arrives: the bytes already taken
+            # must not be dropped
+            cases.append(dict(dev=dict(vf=[30], pf=[]), steps=SRV_PREFIX + [dict(step, recvfault=[0, 11 if len(cases) % 2 else 4])]))
         if st["cut"] >= 0 and not st["seg"] and st["c"] in (2, 9, 18):
             # the same cut, but the peer goes away abruptly (it closes with a reply still unread: the server sees a
             # connection reset, not an orderly end of stream) -- still never a clean disconnect inside a message
@@ -456,7 +462,7 @@ def bereq_run(ctx, hostile=False, functional=True):
                 for v in (1, 2, 0xff, 1 << 32, (1 << 64) - 1, 1 << 63, 0xdeadbeef00000000, 1 << 31):
                     extra.append(dict(steps=c["steps"][:-1] + [dict(last, val=limbs(v))]))
             elif last["r"] == "errno":
-                for e_ in (1, 2, 5, 12, 22, 38, 95, 4095):
+                for e_ in (1, 2, 4, 5, 11, 12, 22, 32, 38, 95, 104, 4095):
                     extra.append(dict(steps=c["steps"][:-1] + [dict(last, errno=e_)]))
             else:
                 extra.append(c)
@@ -534,9 +540,12 @@ def run_C01(ctx):
     if ctx.replay is not None:
         eng = ctx.replay["engine"]
         viol = {"server": server_run, "client": lambda c: client_run(c, False), "bereq": bereq_run,
-                "gpu": lambda c: gpu_run(c, False), "sender": sender_run}[eng](ctx)
+                "gpu": lambda c: gpu_run(c, False), "sender": sender_run, "client_seg": lambda c: reply_framing_run(c, cuts=False)}[eng](ctx)
     else:
-        viol = server_run(ctx) + client_run(ctx, want_mutations=False) + bereq_run(ctx) + gpu_run(ctx, hostile=False) + sender_run(ctx)
+        # (the last stage: conformant replies arriving in pieces must decode to what the peer encoded -- the segmentation
+        # stimuli of C08, judged here in C01's terms)
+        viol = (server_run(ctx) + client_run(ctx, want_mutations=False) + bereq_run(ctx) + gpu_run(ctx, hostile=False) + sender_run(ctx)
+                + reply_framing_run(ctx, cuts=False))
     return ctx.finish("exploration",
         "WireFormat.tla (transcribed from the vhost-user / vhost-user-gpu documents) is the byte-level oracle, evaluated by TLC on recorded "
         "traces: (a) every frontend operation in every negotiation state (MC_Client transitions): bytes, flags, size, descriptor count / "
@@ -819,6 +828,14 @@ def run_C10(ctx):
                 cases.append(dict(ep=ep, kinds=k, sched=s_["sched"]))
     if ctx.tier == "quick" and len(cases) > 1500:
         cases = cases[::len(cases) // 1500 + 1]
+    # every seventh controlled schedule with an answer-awaiting call also runs over a socket whose first receive attempt(s) meet a
+    # temporary condition (EAGAIN: receive timeout / non-blocking socket; EINTR): waiting for an answer longer must not open
+    # the transaction to other callers
+    extra = []
+    for j, c in enumerate(cases):
+        if j % 7 == 0 and any(k in ("reply", "ack") for k in c["kinds"]) and "crash" not in json.dumps(c["sched"]):
+            extra.append(dict(c, recvfault=([11], [4], [11, 11, 4])[(j // 7) % 3]))
+    cases = cases + extra
     # which operation stands for a kind rotates within every (endpoint, kinds) group, so that each public operation of each
     # proxy is the one running beside another caller's transaction in several schedules
     grp = {}
@@ -924,6 +941,12 @@ def vring_letter(a):
     return d
 
 
+# after the last letter of every stimulus each ring is kicked once more (on the descriptor sent last): whether the ring then
+# dispatches is what its state means -- two histories that end in the same model state must behave alike from there on, which
+# transition coverage by itself never asks (it reaches every state by one history only)
+PROBE2 = [dict(op="kick", q=0, which="cur"), dict(op="kick", q=1, which="cur")]
+
+
 def run_C11(ctx):
     cover = ctx.tlc_mc("MC_Vring", "MC_Vring_cover")
     hist = ctx.tlc_mc("MC_Vring", "MC_Vring_hist_" + ctx.tier, max_cases=900000)
@@ -938,9 +961,9 @@ def run_C11(ctx):
     cases = []
     for i, c in enumerate(cover):
         cases.append(dict(nq=2, masks=[3] if i % 3 else [1, 2], vring="rwlock" if i % 2 else "mutex", adapter=("arc", "mutex", "rwlock")[i % 3],
-                          steps=[NEG, dict(op="set_features", bits=[])][:1] + [vring_letter(a) for a in c["steps"]]))
+                          steps=[NEG, dict(op="set_features", bits=[])][:1] + [vring_letter(a) for a in c["steps"]] + PROBE2))
     for i, c in enumerate(hist):
-        cases.append(dict(nq=1, masks=[1], vring="rwlock" if i % 2 else "mutex", steps=[NEG] + [vring_letter(a) for a in c["steps"]]))
+        cases.append(dict(nq=1, masks=[1], vring="rwlock" if i % 2 else "mutex", steps=[NEG] + [vring_letter(a) for a in c["steps"]] + PROBE2[:1]))
     cases = replay_or(ctx, "daemon", cases)
     tr = ctx.harness("daemon", cases, shards=12)
     viol = ctx.tlc_tv("TV_Vring", tr, "daemon")
@@ -1041,6 +1064,24 @@ def run_C17(ctx):
                     pre.append(dict(op="set_vring_kick", q=q, fd="new"))
                 cases.append(dict(nq=nq, masks=masks, steps=pre + [dict(op="listener", thread=t, idl=limbs(idv))]
                                   + [dict(op="kick", q=q, which="cur") for q in range(nq)]))
+    # several listeners under one id on one worker, and unregistration: every listener that is still registered is delivered
+    # under its id, an unregistered one is not, the others (same id on the same worker, on another worker, another id) are unaffected
+    for nq, masks in ((2, [3]), (3, [5, 2]), (3, [1, 2, 4])):
+        pre = [dict(op="negotiate", feats=[], pf=[3])]
+        for q in range(nq):
+            pre.append(dict(op="set_vring_num", q=q, n=limbs(2 << q)))
+            pre.append(dict(op="set_vring_kick", q=q, fd="new"))
+        for t in range(len(masks)):
+            other = (t + 1) % len(masks)
+            for ida, idb in ((300, 300), (300, 301), (65535, 65535), (nq + 1, nq + 1)):
+                regs = [dict(op="listener", thread=t, idl=limbs(ida), fire=False), dict(op="listener", thread=t, idl=limbs(idb), fire=False),
+                        dict(op="listener", thread=other, idl=limbs(ida), fire=False)]
+                for order in ([0, 1, 2], [2, 1, 0]):
+                    for gone in (0, 1):
+                        steps = pre + regs + [dict(op="fire", idx=i) for i in order] + [dict(op="unlisten", idx=gone)]
+                        steps += [dict(op="fire", idx=i) for i in order] + [dict(op="kick", q=q, which="cur") for q in range(nq)]
+                        steps += [dict(op="unlisten", idx=1 - gone), dict(op="fire", idx=0), dict(op="fire", idx=1), dict(op="fire", idx=2)]
+                        cases.append(dict(nq=nq, masks=masks, vring="rwlock" if gone else "mutex", steps=steps))
     cases = replay_or(ctx, "daemon", cases)
     tr = ctx.harness("daemon", cases, shards=12)
     viol = ctx.tlc_tv("TV_Routing", tr, "daemon")
@@ -1117,6 +1158,9 @@ def mem_reconnect_tail(pool, G, rids, contig=False):
         if not (contig and r in (0, 1)):     # (there the next user address belongs to the neighbouring region)
             tail += [dict(op="reconnect"), MEM_NEG, dict(op="set_vring_addr", q=0, rid=r, odesc=limbs(size), oavail=limbs(0x102), oused=limbs(0x204), edge="end")]
         tail += [dict(op="reconnect"), MEM_NEG, dict(op="set_vring_addr", q=0, rid=r, odesc=limbs(size - 16), oavail=limbs(size - 2), oused=limbs(size - 4), edge="last")]
+        # the three parts of a ring in different regions: each address is translated by the region that contains it
+        r2, r3 = (r + 1) % NPOOL, (r + 3) % NPOOL
+        tail += [dict(op="reconnect"), MEM_NEG, dict(op="set_vring_addr", q=0, rid=r, rid_u=r2, rid_a=r3, odesc=limbs(0x20), oavail=limbs(0x102), oused=limbs(0x204))]
     return tail
 
 
